@@ -160,6 +160,11 @@ func genCase(t *rapid.T) Case {
 			default:
 				d = genDomain(t, 4)
 			}
+			if r.Kind == "domain" && rapid.IntRange(0, 11).Draw(t, "rootRule") == 5 {
+				// the root: a catch-all "domain:." (a default entry of a hosts/redirect table, a match-all set)
+				r.Pattern = "."
+				break
+			}
 			doms = append(doms, d)
 			r.Pattern = deco(t, d)
 		case "keyword":
@@ -273,7 +278,7 @@ func reference(rules []Rule, name string) refResult {
 			}
 		case "domain":
 			p := norm(r.Pattern)
-			if n == p || strings.HasSuffix(n, "."+p) {
+			if p == "" || n == p || strings.HasSuffix(n, "."+p) { // "" is the root: every name lies under it
 				if len(p) > bestLen {
 					bestLen, bestDom = len(p), []int{i}
 				} else if len(p) == bestLen {
